@@ -16,3 +16,18 @@ META = {
         "note": "Trusts the Go race detector/atomics, porcupine v1.3.0 and the hook package; interleavings are enumerated at load/store granularity of the flag word only; timeouts in the threshold lab are produced by real (15 ms) timers, a mismatch must reproduce 3/3 alone before it counts.",
     },
 }
+
+META["C05"] = {
+    "engine": "vworker",
+    "design_ref": "DESIGN.md §3 C05",
+    "technique": "boundary oracle (membership / health) over every policy x all 2^n health patterns; version-labelled host sets under concurrent replacement checked as a versioned register (interval check + porcupine); race detector with anchor filter on the snapshot publication",
+    "text": "Exploration with an exhaustive sub-space: all eight policies, plain and under the subset balancer, sizes 0..8 with ALL 2^n health patterns x 5 weight shapes (random patterns for 17 and 40 hosts) x 40 (200) picks each with retry re-entry, forged re-entry indices, hash keys and perturbed gauges: every answer must be a member, healthy if a healthy member exists, nil only if none is. Concurrency: 8 readers take snapshots through the real cluster manager while a writer replaces version-labelled host sets (~1.5e6 lookups quick): the snapshot must be single-versioned, the answer must belong to that snapshot and its version must lie between the last version published before the call and the last one started before the return; sampled histories also go through porcupine; append/remove are checked sequentially.",
+    "note": "Health is set through Host.SetHealthFlag (shared word per address); concurrency oracle judges membership/version only (health flips under concurrency are racy by nature and are not judged); trusts Go's race detector and porcupine.",
+}
+META["C06"] = {
+    "engine": "vworker",
+    "design_ref": "DESIGN.md §3 C06",
+    "technique": "exhaustive enumeration of the random draw through an injected scripted rand source (verif accessor) with a storage-order-independent counting oracle (subset-sum explainability + zero-weight rule); all-window lag bound of weighted round-robin via max-min of prefix functions",
+    "text": "Exploration with exhaustive sub-spaces: for 400 (3000) weighted-cluster configurations (1..8 clusters, weights incl. 0/1/dominant, totals power of two or not, <= 4096) the WHOLE draw space [0,total) is enumerated 6 (16) times per configuration on fresh rule instances (map iteration order varies per call); each answer must be a configured cluster of non-zero weight and must be explainable by some storage order in which every cluster owns exactly weight(c) consecutive draw values. WRR: 300 (3000) weight vectors in 1..128, up to 6000 (40000) picks each, the bound |n_i/w_i-n_j/w_j| <= 1/w_i+1/w_j is checked for every window and every pair.",
+    "note": "The storage order of the Go map cannot be observed, so the draw oracle is existential over orders (sound, never a false alarm; it misses deviations that some other order would explain — equal-weight configurations cannot expose an off-by-one). Trusts math/rand's Intn derivation from Int63 (self-checked at start).",
+}
